@@ -308,7 +308,17 @@ class Ref:
 
     def universal_values(self, t, env):
         """for_all(t, c): t is a variable or an expression over one variable; one environment per value of t"""
+        if t[0] == "fl":
+            # the universal is the un-nested element of an expression over a variable that is bound: every element of it
+            inner = self.value(t[1], env)
+            for e in (list(inner) if (hasattr(inner, "__iter__") and not isinstance(inner, (str, bytes))) else [inner]):
+                yield {t: e}
+            return
         names = sorted(cond_vars(t))
+        if len(names) == 1 and names[0] not in self.udomains:
+            # an expression over a variable that is bound (x.t[0]): its one value
+            yield {}
+            return
         assert len(names) == 1, t
         for o in self.udomains[names[0]]:
             yield {names[0]: o}
@@ -344,15 +354,18 @@ class Ref:
 def flatten_terms(x):
     """distinct flatten terms in order of first appearance (inner ones first)"""
     out = []
+    universal = []      # flatten terms that a for_all ranges over are bound by the for_all, not un-nested into rows
 
     def walk(t):
         if isinstance(t, tuple):
+            if len(t) == 3 and t[0] == "fa" and isinstance(t[1], tuple) and t[1][:1] == ("fl",):
+                universal.append(t[1])
             for e in t:
                 walk(e)
             if len(t) == 2 and t[0] == "fl" and t not in out:
                 out.append(t)
     walk(x)
-    return out
+    return [t for t in out if t not in universal]
 
 
 REF_PRED = {
